@@ -19,6 +19,9 @@ VERIF = os.path.dirname(os.path.abspath(__file__))
 REPO = os.environ.get("ELFIO_REPO", "/repo")
 LEAN = os.path.join(VERIF, "lean")
 BUILD = os.path.join(VERIF, "build")
+# evidence directory: overridable so that runs against deliberately modified trees (tools/run_seeded.py)
+# do not overwrite the evidence of the unchanged tree
+EVID = os.environ.get("VERIF_EVIDENCE_DIR") or os.path.join(VERIF, "evidence")
 NPROC = min(16, os.cpu_count() or 4)
 ALLOWED_AXIOMS = {"propext", "Classical.choice", "Quot.sound"}
 BV_AXIOMS_OK_IN = os.path.join(LEAN, "ElfioVerif", "Lemmas", "Bits.lean")
@@ -163,12 +166,13 @@ def parse_transcript(txt):
     return out
 
 
-def run_side(cmd, cases, env=None, tag="x"):
+def run_side(cmd, cases, env=None, tag="x", nproc=None):
     """cases: list of (id, lines). Runs in NPROC chunks; returns {id: [out lines]}"""
     if not cases:
         return {}
     rd = os.path.join(BUILD, "run"); os.makedirs(rd, exist_ok=True)
-    chunks = [cases[i::NPROC] for i in range(NPROC)]
+    nproc = nproc or NPROC
+    chunks = [cases[i::nproc] for i in range(nproc)]
     chunks = [c for c in chunks if c]
     def one(ix_chunk):
         ix, chunk = ix_chunk
@@ -182,7 +186,7 @@ def run_side(cmd, cases, env=None, tag="x"):
         os.remove(p)
         return parse_transcript(r.stdout)
     res = {}
-    with cf.ThreadPoolExecutor(NPROC) as ex:
+    with cf.ThreadPoolExecutor(nproc) as ex:
         for d in ex.map(one, enumerate(chunks)):
             res.update(d)
     return res
@@ -253,13 +257,13 @@ def main():
     fam = importlib.import_module(f"families.{pid.lower()}")
     t0 = time.time()
     os.makedirs(BUILD, exist_ok=True)
-    os.makedirs(os.path.join(VERIF, "evidence", "replay"), exist_ok=True)
+    os.makedirs(os.path.join(EVID, "replay"), exist_ok=True)
     log = []
     problems = []       # things that make the property "no longer shown to hold"
     if a.replay is None:
-        for f in os.listdir(os.path.join(VERIF, "evidence", "replay")):
+        for f in os.listdir(os.path.join(EVID, "replay")):
             if f.startswith(pid + "-"):
-                os.remove(os.path.join(VERIF, "evidence", "replay", f))
+                os.remove(os.path.join(EVID, "replay", f))
     # 1. regeneration
     rc, gout, gstat = step_gen()
     broken_sites = {k: v for k, v in gstat.items() if v != "ok"}
@@ -340,6 +344,27 @@ def main():
         ids.add(c["id"])
     impl = run_impl(cases)
     model = run_model(cases)
+    # a wall-clock timeout (or a missing transcript) on a loaded machine is not a fault of the library:
+    # such cases are run again, two at a time, with a 15x limit, and only that result counts
+    def timed_out(c):
+        return any(l.startswith("FAULT timeout") for l in impl.get(c["id"]) or []) \
+            or (exe and impl.get(c["id"]) is None) or (have_driver and model.get(c["id"]) is None)
+
+    def rerun(cs):
+        pairs = [(c["id"], c["lines"]) for c in cs]
+        if exe:
+            impl.update(run_side([exe], pairs, dict(ASAN_ENV, VH_TIMEOUT_SCALE="6"), "h2", nproc=4))
+        if have_driver:
+            model.update(run_side([driver, fam.FAMILY], pairs, None, "d2", nproc=4))
+    again = [c for c in cases if timed_out(c)]
+    if again:
+        first = sorted(again, key=lambda c: len(c["lines"]))[:12]
+        rerun(first)
+        rest = [c for c in again if c not in first]
+        if rest and not all(timed_out(c) for c in first):   # the machine was busy: the others deserve a second run too
+            rerun(rest)
+        log.append(f"{len(again)} case(s) timed out or gave no transcript in the parallel pass; after re-running alone "
+                   f"with a 6x limit {sum(1 for c in again if timed_out(c))} still do")
     known = load_known()
     open_sigs = {(k["property"], k["signature"]): k for k in known.get("open", [])}
     diffs = []; viols = []; known_hit = {}; nontriv = set(); dist = {}
@@ -365,7 +390,7 @@ def main():
 
     # 5. verdict
     exit_code = 0; vio_lines = []
-    rp_dir = os.path.join(VERIF, "evidence", "replay")
+    rp_dir = os.path.join(EVID, "replay")
     if viols:
         c, v = viols[0]
         def still(lines):
@@ -433,7 +458,7 @@ def main():
         "wall_s": round(time.time() - t0, 2),
         "violations": len(viols) + (1 if (problems or diffs) and not viols else 0),
     }
-    with open(os.path.join(VERIF, "evidence", f"{pid}.json"), "w") as f:
+    with open(os.path.join(EVID, f"{pid}.json"), "w") as f:
         json.dump(ev, f, indent=1)
     print(f"{pid} {tier} seed={seed}: theorems {discharged}/{len(theorems)}, cases {len(cases)} "
           f"(nontrivial {len(nontriv)}), corr-diffs {len(diffs)}, oracle-violations {len(viols)}, "
